@@ -23,9 +23,6 @@ open BS.Tokenizer BS.SourcePos BS.Adapter
 def AtIndex (text : PStr) (st : St) (i : Nat) : Prop :=
   i ≤ text.length ∧ st.s = text.drop i ∧ st.pos = lineCol text i
 
-theorem lineCol_prefix (a b : PStr) : lineCol (a ++ b) a.length = lineCol a a.length := by
-  simp [lineCol]
-
 private theorem atIndex_of_spec {text pre : PStr} {st st' : St} {evs : List Ev} (hpre : pre ++ st.s = text)
     (h : Spec pre st.s evs st') : AtIndex text st' (pre.length + (srcs evs).length) := by
   have hc := h.cover
@@ -158,47 +155,6 @@ theorem turn_consumes (P : Params) (end_ : Bool) (st : St) :
 theorem fuel_suffices (P : Params) (text : PStr) : (run P text).flag ≠ .stuck := run_not_stuck P text
 
 /-! ### the form C18 composes with: the positions of the start-tag callbacks, in order -/
-
-/-- offsets of the chunks of the start-tag events, in order (`o` = offset of the first event) -/
-def startOffsets : Nat → List Ev → List Nat
-  | _, [] => []
-  | o, e :: es => (if isStart e.tok then [o] else []) ++ startOffsets (o + e.src.length) es
-
-theorem startOffsets_mem (evs : List Ev) : ∀ (o lo : Nat), lo ∈ startOffsets o evs →
-    ∃ e hi, (e, lo, hi) ∈ spans o evs ∧ isStart e.tok = true := by
-  induction evs with
-  | nil => intro o lo h; simp [startOffsets] at h
-  | cons x xs ih =>
-    intro o lo h
-    simp only [startOffsets, List.mem_append] at h
-    rcases h with h | h
-    · split at h
-      · rename_i hx
-        simp only [List.mem_singleton] at h; subst h
-        exact ⟨x, lo + x.src.length, by simp [spans], hx⟩
-      · simp at h
-    · obtain ⟨e, hi, he, hs⟩ := ih _ lo h
-      exact ⟨e, hi, by simp [spans, he], hs⟩
-
-private theorem startPositions_of_WP (text : PStr) : ∀ (evs : List Ev) (pre rest : PStr), WP pre evs →
-    pre ++ srcs evs ++ rest = text →
-    startPositions (evs.filterMap toSEv) = (startOffsets pre.length evs).map (lineCol text) := by
-  intro evs
-  induction evs with
-  | nil => intro pre rest _ _; simp [startPositions, startOffsets]
-  | cons e es ih =>
-    intro pre rest hw hc
-    obtain ⟨hp, hw'⟩ := hw
-    have hc' : (pre ++ e.src) ++ srcs es ++ rest = text := by simpa [List.append_assoc] using hc
-    have ih' := ih (pre ++ e.src) rest hw' hc'
-    simp only [List.length_append] at ih'
-    have hpos : e.pos = lineCol text pre.length := by
-      rw [hp, ← hc, List.append_assoc, lineCol_prefix]
-    simp only [startOffsets, List.filterMap_cons]
-    cases htok : e.tok <;> simp only [toSEv, htok, isStart] <;>
-      first
-      | (rw [startPositions_cons, ih']; simp [startPositions, ← hpos])
-      | (simpa using ih')
 
 /-- **the start-tag callbacks, in order, carry the line/column of the offsets of their `<`.** `startPositions` is the
     list of `(line, col)` of the `handle_starttag`/`handle_startendtag` callbacks in the stream the adapter receives. -/
